@@ -8,47 +8,47 @@ NOTE = "bounded exploration: TLC is exhaustive within the stated constants; the 
 CHECKS = {
  "C01": ("model_checking",
          "TLC checks exhaustively that the transcribed offset mechanisms (3D evaluator, 2D wrapper) equal the specified layout for every property list up to the bound and explores every life-cycle history up to the bound; every list and history it visits is replayed against the real library and each block compared bitwise with a stand-alone reference.",
-         "property lists over an 8-element alphabet (quick: length <= 3, thorough: <= 5), six spec-rendered worlds, 8 probes, 2D and 3D; " + NOTE,
+         "property lists over an 8-element alphabet (quick: length <= 3, thorough: <= 5), six spec-rendered worlds (with a composition that depends on the finished world's temperature), 8 probes, 2D and 3D; the repository's own worlds as opaque files; simulated documents of the world-file grammar Gen.tla (twin bitwise, block vs stand-alone, reversed list); every second harness process with environment queries on decoy worlds; " + NOTE,
          "TLA+/TLC model checking of layout + life-cycle spec (C01.tla); replay of TLC-generated behaviours into the real code, bitwise comparison"),
  "C02": ("model_checking",
          "TLC enumerates every feature stack from the catalogue of Paint.tla, proves the oracle's own locality / permutation / last-covering-tag theorems on each, and each stack is rendered, built and queried in the real library with exact comparison against the specified fold.",
-         "stacks of <= 2 features exhaustively (thorough: full catalogue at both positions plus simulated stacks of 3-4); uniform models; " + NOTE,
+         "stacks of <= 2 features exhaustively (thorough: full catalogue at both positions plus simulated stacks of 3-4); uniform models in the stacks, lists of two models of a kind, and every kind of composition model over a painted base for the unlisted labels; " + NOTE,
          "TLA+/TLC model checking of the paint-fold spec (Paint.tla); replay with exact expected values"),
  "C03": ("model_checking",
          "TLC checks that the transcribed fill / early-return / fold / re-imposition mechanism refines the specified background and forced-surface rule for every configuration, and every configuration (thermal constants x gravity x coordinate system x forced x feature set) is replayed at five depths with five property lists; additionally the outside probe of every Paint.tla stack.",
-         "constants from small sets; " + NOTE,
+         "constants from small sets; every history of 4 / 6 queries against three live worlds with different constants; " + NOTE,
          "TLA+/TLC (Background.tla, Paint.tla) + replay with evaluated closed-form terms"),
  "C04": ("model_checking",
          "TLC builds every simple polygon with up to MaxV vertices on the lattice and checks, for every probe of the doubled lattice, that the transcribed winding-number code equals the definitional closed-polygon predicate; each polygon is replayed as the footprint of the three area-feature types with exact (integer-metre) boundary probes and depth-interval probes. Plume tables: TLC decides interval, fraction and cyclic-angle branch exactly and emits the ellipse function as a term the harness evaluates.",
-         "4x4 lattice, 3-4 vertices quick / 5 thorough; plume tables of 1-2 sections (3 simulated); membership within 1e-6 of a curved boundary not asserted; " + NOTE,
+         "4x4 lattice, 3-4 vertices quick / 5 thorough, Cartesian and spherical (also across / beyond the +-180 meridian); plume tables of 1-2 sections (3 simulated), spherical ones also shifted across / beyond the meridian; local depth intervals given at points; membership within 1e-6 of a curved boundary not asserted; " + NOTE,
          "TLA+/TLC (Extent.tla Mech=Prop, Plume.tla) + replay of every polygon / table"),
  "C05": ("exploration",
          "Exploration with a model-derived oracle: Models.tla states each documented closed form as a symbolic term, TLC enumerates model x feature type x sentinel pattern x relation of the model's depth range to the feature's x operation and resolves every discrete branch exactly (which sentinel means 'adiabatic / global', which bounds are the local top and bottom, inside or outside the model's own range); the real library is queried and compared with the term evaluated by a generic evaluator (1e-9 relative; 1e-8 for the 100-term series).",
-         "TLC decides the case analysis, not the arithmetic; 317 cases; smooth compositions, tian2019, mass conserving and slab plate-model temperatures have no documented closed form and are not claimed; " + NOTE,
+         "TLC decides the case analysis, not the arithmetic; 374 cases in 11 families; tian2019, mass conserving and slab plate-model temperatures have no documented closed form and are not claimed; " + NOTE,
          "TLA+ case enumeration with symbolic closed-form terms (Models.tla) + replay with numeric comparison"),
  "C06": ("model_checking",
          "Slab.tla constructs the slab / fault surface of a straight trench in the perpendicular plane with Pythagorean dips, so that for every lattice point TLC decides exactly which segment carries the foot, the signed distance from and the distance along the surface, and membership (thickness and top truncation varying linearly along each segment); every world x point is replayed against World::distance_to_plane (1e-6 relative + 1 m) and against membership (composition and tag), leaving out only points where an inequality is tight or the nearest segment is ambiguous.",
-         "1 segment (quick) / 1-2 segments (thorough), 5 dips incl. vertical and overturned, 3 trench directions, both dip sides, min depth 0 / 100 km, slabs and faults; Cartesian straight segments only; " + NOTE,
+         "1-3 segments (reduced sets for the second and third), 5 dips incl. vertical and overturned, 3 trench directions, both dip sides, min depth 0 / 100 km, thickness / truncation pairs, a collinear middle coordinate, slabs and faults; arcs by construct-then-query; Cartesian only; " + NOTE,
          "TLA+/TLC exact planar construction (Slab.tla) + replay of distances and membership"),
  "C07": ("model_checking",
          "For straight trenches TLC checks on the exact planar construction that no member is discarded by the transcribed pre-filter (depth cut-off measured from the min depth, bounding box extended by length + thickness) -- the pre-fix cut-off is kept as a switch and yields the counterexample; for all families (straight, curved, spherical up to 80 degrees latitude, dateline-crossing, variable depth surfaces) every query is answered twice in one process, with the shortcuts as built and neutralised through the GWB_VERIF hook, and must agree bitwise.",
-         "differential replay needs the hook (bounds inflated at parse time); grids of 5-6 thousand points per world; quick runs a third of the straight and half of the curved worlds; " + NOTE,
+         "differential replay needs the hook (bounds inflated at parse time); grids of 5-6 thousand points per world; quick runs a third of the straight and half of the curved worlds; depth surfaces with their extreme at any list position; simulated documents of Gen.tla; " + NOTE,
          "TLA+/TLC Mech|=Prop for the culling arithmetic (Slab.tla) + differential replay with the hook (Culling.tla)"),
  "C08": ("model_checking",
          "Motion.tla writes one world against a frame: every coordinate-bearing entry is produced by the single operator XYf(frame, x, y) (plus the plume azimuth), so applying a motion is re-rendering against another frame and no entry can be forgotten; frames use rational rotations (90, 180 degrees, 3-4-5, 5-12-13) with translations up to 1e7 m, and longitude offsets that carry features across the +-180 meridian; TLC checks the exact group structure on the lattice; base and moved worlds are built and compared at p and g.p (metamorphic replay, tolerance 1e-6).",
-         "one rich world, 17 Cartesian frames and 8 longitude offsets, 18 interior probes; the code-side comparison is metamorphic (code vs code); " + NOTE,
+         "one rich world, 17 Cartesian frames and 8 longitude offsets, 18 interior probes; trench-shape and ridge-shape families on dense lattices; simulated documents of Gen.tla written against a second frame; the code-side comparison is metamorphic (code vs code); " + NOTE,
          "TLA+/TLC frame algebra (Motion.tla) + metamorphic replay base vs moved world"),
  "C09": ("model_checking",
          "TLC maps every 2D probe exactly onto the section (rational arithmetic on Pythagorean directions), checks that the probes stay away from straight feature boundaries, and every section x position x depth x property list is replayed: the 2D reply must equal the 3D reply at the mapped point block by block, velocities as the specified projection, and a world without cross section must refuse.",
-         "36 sections (origins x 6 directions x Cartesian/spherical), 45 property lists; tolerance 1e-9 because the code's own mapping rounds; " + NOTE,
+         "60 sections (origins x 6 directions x Cartesian/spherical x forced surface temperature), 45 property lists, 11 single-property entry points, refusal of all 17 2D entry points; simulated documents of Gen.tla with 4 cross sections; tolerance 1e-9 because the code's own mapping rounds; " + NOTE,
          "TLA+/TLC (CrossSection.tla) + replay comparing 2D and 3D replies"),
  "C10": ("model_checking",
          "Sections.tla specifies which models a segment resolves to (segment, else section, else feature) for every placement of temperature and composition models over three trench coordinates, and the two re-layouts the statement names; TLC enumerates all placements (and checks the oracle's own locality); each placement is replayed: as-written, explicit and repeated layouts must answer bit-identically, values lie between the two neighbouring coordinates' resolved values and equal a coordinate's own value at the coordinate, and removing one coordinate's entry leaves answers strictly beyond its neighbours bit-identical.",
-         "2 x 10^3 placements (quick: every second), 9 positions along a straight three-coordinate trench, uniform models; " + NOTE,
+         "2 x 10^3 placements of temperature / composition models (quick: every second), 48 placements of grains / velocity models, section-geometry tables, 9 positions along a three-coordinate trench, uniform models; " + NOTE,
          "TLA+/TLC (Sections.tla resolution oracle) + replay with twin worlds, bitwise"),
  "C11": ("model_checking",
          "Surface.tla specifies the nodal values of a depth surface (last entry naming a coordinate wins, point-less entries name every corner) and transcribes the merge mechanism with its approx-based same-point test; TLC checks that the mechanism yields exactly one node per coordinate with the specified value for every configuration, and each configuration is replayed: the depth actually used is observed 1 m above / below the predicted depth at every nodal point and inside the polygon (exact for affine data, min/max bounds otherwise).",
-         "3 polygons x listed-corner subsets x 0-2 interior points x affine/bumped x entry order (306 configurations), Cartesian integer metres; " + NOTE,
+         "3 polygons x listed-corner subsets x 0-2 interior points x affine/bumped x entry order x later point-less entry x area type x min/max/both, plus model-level surfaces and spherical worlds on one polygon (about 5 thousand configurations); " + NOTE,
          "TLA+/TLC (Surface.tla Mech|=Prop) + replay observing the switching depth of a composition"),
  "C12": ("model_checking",
          "Parse.tla applies every mutation of a catalogue (and, thorough, every pair) to valid base documents inside the specification, classifies each as must-reject / builds-or-throws / formatting-only, and records for each rejection whether the transcribed pipeline stops it with an always-on or a debug-only check (Mech |= Prop in a release build); every document, plus byte-level damage and formatting variants from a generic re-serialiser, is constructed and probed in the real library under AddressSanitizer and UndefinedBehaviorSanitizer.",
@@ -56,35 +56,35 @@ CHECKS = {
          "TLA+/TLC (Parse.tla mutation catalogue, pipeline Mech) + replay under ASan/UBSan"),
  "C13": ("exploration",
          "Model-directed exploration: Degenerate.tla derives the degenerate locations of a configuration (polygon vertices and edges, trench line and ends, slab tip, fault line, plume axis, ridge points, depth-surface nodes, kinks, poles, the +-180 meridian, the centre, z = -depth frames, odd depths) and TLC enumerates world kind x location; each is queried in the real library under ASan + UBSan and every returned value must be finite unless a std::exception is thrown.",
-         "the decision that an execution had no undefined behaviour is the sanitizers'; the specification directs where to look; locations of one (rich) configuration in three renderings; " + NOTE.replace("-O2 -DNDEBUG", "-O1 -DNDEBUG + ASan/UBSan"),
+         "the decision that an execution had no undefined behaviour is the sanitizers'; the specification directs where to look; degenerate locations of one rich configuration in three renderings, 26 degenerate worlds, worlds borrowed from 11 other specifications and simulated documents of Gen.tla; " + NOTE.replace("-O2 -DNDEBUG", "-O1 -DNDEBUG + ASan/UBSan"),
          "TLA+ enumeration of degenerate locations (Degenerate.tla) + replay under ASan/UBSan with finiteness oracle"),
  "C14": ("model_checking",
          "TLC explores every interleaving of the transcribed parallel_for (no result slot written twice, at most T workers, termination under fairness, launches equal their sequential meaning), proves the slice partition for all n, T in the bound, and checks concurrent readers; executions of the REAL ThreadPool are recorded and validated by TLC as behaviours of the specification (trace validation, Prop level: any partition is accepted); real threads replay query streams against one world bitwise vs single-thread and under ThreadSanitizer; real gwb-grid outputs are byte-compared for -j 1..40.",
-         "interleavings exhaustively only in the model (n <= 6/7, T <= 3/4); real schedules sampled; worlds without random models; " + NOTE,
+         "interleavings exhaustively only in the model (n <= 6/7, T <= 3/4); real schedules sampled; kitchen-sink worlds, the repository's worlds and documents of Gen.tla, without random models; " + NOTE,
          "TLA+/TLC (Pool.tla, Concurrent.tla) + trace validation of the real ThreadPool (PoolTrace.tla) + TSan + byte comparison"),
  "C15": ("model_checking",
          "Rng.tla models a world's engine position (doubles drawn) with the draw count of every query; TLC explores every query history up to the bound for every (feature type, random model, seed) and each history is replayed on three real worlds: seed through the constructor, the same seed through the file, another seed. After every query the twin replies are bitwise equal, the third differs, both engines equal a shadow mt19937 at seed + 2*pos words (binding the draw count), and orientations / sizes / compositions are valid.",
-         "histories of 2 (quick) / 3 + simulated 30 (thorough) queries over an 8-query alphabet, 11 worlds, 2-3 seeds; " + NOTE,
+         "histories of 2 (quick) / 3 + simulated 30 (thorough) queries over an 8-query alphabet, 44 worlds (type x model x label order x basis orientation), 3-4 seeds incl. 0; " + NOTE,
          "TLA+/TLC (Rng.tla draw-count model) + replay on twin worlds with a shadow mt19937"),
  "C16": ("model_checking",
          "The refinement mapping from C / wrapper actions to World actions is stated in CApi.tla and checked by TLC on all argument combinations; every mapped pair of actions is executed side by side in one process and compared bitwise, with the seed observed through random models and the output directory through the files written.",
-         "5 seeds incl. 2^31-1 and 2^32+5, null/non-null flag and directory; " + NOTE,
+         "6 seeds incl. 0, 2^31-1 and 2^32+5, null/non-null flag and directory; simulated life-cycle histories on two wrapper handles; documents of Gen.tla through create_world; " + NOTE,
          "TLA+/TLC refinement mapping (CApi.tla) + side-by-side replay, bitwise"),
  "C17": ("model_checking",
          "Dat.tla states, for every option-line configuration, the header and which slot of the library's reply belongs under each column name (Prop) next to the printer's transcribed index arithmetic (Mech); TLC checks Mech = Prop (the code's deviations are explicit switches). The real gwb-dat is run on every configuration, its stdout is validated by TLC as a trace against Dat.tla (DatTrace.tla) and every cell is compared with the library's in-process reply.",
-         "216 configurations, 7 rows each, one kitchen-sink world per coordinate mode; " + NOTE,
+         "about 1300 configurations (options x separator x option-line layout x number format), 7 rows each, one kitchen-sink world per coordinate mode; 12 malformed-row files; " + NOTE,
          "TLA+/TLC (Dat.tla Mech=Prop) + trace validation of the real tool's output (DatTrace.tla) + cell comparison"),
  "C18": ("model_checking",
          "Grid.tla states what a well-formed mesh of each structured grid type is (nodes = the full lattice index box, cells = exactly its unit cells in VTK order with the right types and offsets, Depth index, the filter rule) independently of any node numbering; the real gwb-grid is run on every configuration TLC enumerates, each mesh it writes (main, filtered, per tag) is replayed to TLC as a trace and judged by those predicates, and every stored node value is compared bitwise with the library's in-process reply at the stored position and depth.",
-         "cell counts 1..2 (quick) / 1..3 (thorough) per direction, one kitchen-sink world per coordinate mode, sphere grids by invariants only; " + NOTE,
+         "cell counts 1..2 (quick) / 1..3 (thorough) per direction, shell and full sphere, --resolution-limit, RawBinary and (Cartesian) ASCII, one kitchen-sink world per coordinate mode, sphere grids by invariants only; " + NOTE,
          "TLA+/TLC (Grid.tla) + trace validation of the real tool's VTU output (GridTrace.tla) + bitwise node-value comparison"),
  "C19": ("model_checking",
          "TLC checks the transcribed kd-tree search against the minimum-distance definition for every point set, every arrangement the median split may leave and every query; the transcribed polygon code against the closed-polygon definition for every simple polygon; the great-circle mechanism (clamp included) against R*acos on the 26-direction configuration where dot products are integers. Every enumerated input is then passed to the real kernels. Bezier closest points and the coordinate round trip are compared numerically with brute force (exploration-strength for those two).",
-         "4x4 lattices, <= 4/5 points, polygons <= 4/5 vertices, polylines <= 3/4 points with bends <= 60 degrees; " + NOTE,
+         "4x4 lattices, <= 4/5 points at four lattice units, polygons <= 4/5 vertices, polylines <= 4 points with bends <= 60 degrees (near and far query points), 54 zig-zag trenches on a 20 km query grid; " + NOTE,
          "TLA+/TLC Mech|=Prop for kd-tree, polygon, great circle (Kernels.tla, Extent.tla) + direct kernel replay; brute-force comparison for Bezier / round trip"),
  "C20": ("exploration",
          "Model-directed exploration: Envelope.tla states the envelope, monotonicity and boundary-value predicates and TLC enumerates the cases (oceanic cooling models x ridge geometries x velocities / ages x constant or laterally varying plate thickness; mass-conserving and plate-model slabs x dips x velocities x plate ages) and lays out vertical, horizontal and cross-slab probe lines; the harness checks the inequalities on the library's replies (slack 1e-9 relative).",
-         "TLC does not evaluate the inequalities; 90 cases, about 60 thousand probe points; slab ambient = background adiabat; " + NOTE,
+         "TLC does not evaluate the inequalities; 138 cases (Cartesian and spherical plates, long and nascent slabs), about 430 thousand probe points; slab ambient = background adiabat; " + NOTE,
          "TLA+ case and probe-line enumeration (Envelope.tla) + replay with envelope / monotonicity oracles"),
 }
 
